@@ -67,12 +67,12 @@ inductive FlagStore where
   | threadLocal | shared
   deriving DecidableEq, Repr
 
-/-- the slots of the options list `Catcher.__exit__` hands to `_log` -/
-inductive OptSlot where
+/-- the elements of the list `Catcher.__exit__` hands to `_log` as its options, in source order -/
+inductive CatchSlot where
   | excTriple            -- `(type_, value, traceback_)`
   | depthAdjusted        -- the logger's own depth + decorator adjustment + `_frames`
   | constTrue            -- `True`
-  | inherited (i : Nat)  -- the i-th element of `logger._options`
+  | rest                 -- `*options`: the tail of `logger._options` that `__exit__` kept
   deriving DecidableEq, Repr
 
 structure Shape where
